@@ -24,6 +24,7 @@ import random
 import re
 import shutil
 import tempfile
+import time
 
 import vcommon as V
 
@@ -409,13 +410,14 @@ def run(chk):
         with open(cf, "w") as f:
             for c in cases:
                 f.write(json.dumps(c) + "\n")
+        t0 = time.time()
         rc, o = V.run([drv, "-mode", "sup", "-cases", cf, "-out", of, "-stall",
                        "240" if name in ("proto", "nproto", "free-leaf", "free-maps", "replay") else "150",
                        "-maxdeadlocks", "10" if name == "nproto" else "0"],
                       timeout=1500 if quick else 2400)
         if rc != 0:
             return name, cases, [], "FAILED rc=%s: %s" % (rc, o[-1500:])
-        return name, cases, V.split_cases(V.read_jsonl(of)), o.strip().splitlines()[-1]
+        return name, cases, V.split_cases(V.read_jsonl(of)), o.strip().splitlines()[-1] + " wall=%.0fs" % (time.time() - t0)
 
     futs = []
     if chk.replay:
@@ -498,12 +500,26 @@ def run(chk):
     if incomplete:
         raise V.Inconclusive("%d recorded cases have no end event (driver problem)" % len(incomplete))
 
+    chk.notes["wall_s_until_all_batches_recorded"] = round(time.time() - chk.t0, 1)
     # ---- 5. P-level verdicts (TLC folds every recorded execution into LifecycleObs.tla)
     chunks = 4 if quick else 12
     parts = [segs[i::chunks] for i in range(chunks) if segs[i::chunks]]
     bad_ids = set()
     reported = {}
-    for part, (verdicts, ok, st, tr, err) in zip(parts, pool.map(lambda p: pfold(work, p), parts)):
+    pfuts = [pool.submit(pfold, work, p) for p in parts]
+    # ---- 6a. M-level conformance runs side by side with the verdicts (its results are used for drift only, and only for
+    # cases the P-level accepted); cases that did not end with every call returned are not compared at all
+    mcand = [s for s in segs if s[-1].get("why") == "complete"]
+    good = [s for s in mcand if s[0].get("mode") != "nproto"]
+    mparts = [("Lifecycle.tla (Variant fixed)", "LifecycleTrace", "LifecycleTrace.cfg", good[i::chunks])
+              for i in range(chunks) if good[i::chunks]]
+    for k in (2, 3):   # nested cases: the number of inner contexts is a constant of the model
+        ngood = [s for s in mcand if s[0].get("mode") == "nproto" and s[0].get("mix") == "nested%d" % k]
+        nch = max(1, chunks // 4)
+        mparts += [("NestedLifecycle.tla (Variant ok, %d inner contexts)" % k, "NestedTrace", "NestedTrace%d.cfg" % k, ngood[i::nch])
+                   for i in range(nch) if ngood[i::nch]]
+    mfuts = [pool.submit(mfold, work, p[3], module=p[1], cfg=p[2]) for p in mparts]
+    for part, (verdicts, ok, st, tr, err) in zip(parts, [f.result() for f in pfuts]):
         chk.states += st
         chk.transitions += tr
         if not ok:
@@ -518,34 +534,33 @@ def run(chk):
             reported[key] = reported.get(key, 0) + 1
             if reported[key] > 1:
                 continue  # one replay per failing class; the count is in the evidence
-            where = [ln.get("where") for ln in seg if ln.get("e") == "end" and ln.get("why") == "deadlock"]
+            where = [ln.get("where") for ln in seg if ln.get("e") == "end" and ln.get("why") in ("deadlock", "crash")]
             what = "real MPCalContext execution violates %s in case %s (mode %s, mix %s, %s), event %d of the case" % (
                 "+".join(names), seg[0].get("id"), seg[0].get("mode"), seg[0].get("mix"), shape(seg), line)
-            if where:
+            if where and seg[-1].get("why") == "crash":
+                what += "; the process died: " + "; ".join(where[0] or [])
+            elif where:
                 what += "; Go runtime: all goroutines asleep, parked at " + "; ".join(where[0] or [])
             chk.violation(key, what, {"spec": specs.get(id(seg)), "segment": seg, "line_in_seg": line, "violated": names})
     chk.notes["violating_cases_per_class"] = reported
 
+    chk.notes["wall_s_until_verdicts"] = round(time.time() - chk.t0, 1)
     # ---- 6. M-level conformance (drift only)
-    good = [s for s in segs if id(s) not in bad_ids and s[0].get("mode") != "nproto"]
-    parts = [("Lifecycle.tla (Variant fixed)", "LifecycleTrace", "LifecycleTrace.cfg", good[i::chunks])
-             for i in range(chunks) if good[i::chunks]]
-    for k in (2, 3):   # nested cases: the number of inner contexts is a constant of the model
-        ngood = [s for s in segs if id(s) not in bad_ids and s[0].get("mode") == "nproto" and s[0].get("mix") == "nested%d" % k]
-        nch = max(1, chunks // 2)
-        parts += [("NestedLifecycle.tla (Variant ok, %d inner contexts)" % k, "NestedTrace", "NestedTrace%d.cfg" % k, ngood[i::nch])
-                  for i in range(nch) if ngood[i::nch]]
     macc = 0
     if True:
-        for (spec, _, _, _), (acc, rej, st, tr, errs) in zip(parts, pool.map(
-                lambda p: mfold(work, p[3], module=p[1], cfg=p[2]), parts)):
-            macc += acc
+        for (spec, _, _, mpart), (acc, rej, st, tr, errs) in zip(mparts, [f.result() for f in mfuts]):
+            nbad = sum(1 for s in mpart if id(s) in bad_ids)
+            macc += max(0, acc - sum(1 for s in mpart if id(s) in bad_ids and not any(s is r for r in rej)))
             chk.states += st
             chk.transitions += tr
             for s in rej:
+                if id(s) in bad_ids:
+                    continue   # a violating execution: judged at the P-level, not a matter of model drift
                 chk.drift.append({"spec": spec, "case": s[0].get("id"), "mode": s[0].get("mode"),
                                   "mix": s[0].get("mix"), "events": len(s)})
             for e in errs:
+                if nbad and "non-conforming" in e:
+                    continue
                 chk.drift.append({"spec": spec, "error": e})
     chk.notes["m_level_traces_accepted"] = macc
     chk.notes["cases_recorded"] = len(segs)
